@@ -278,6 +278,15 @@ impl FixedMethod {
         }
 
         if let Some(character) = value.chars().next() {
+            // A value which starts with a Kar but has more characters: process the Kar
+            // and then the rest of the value, so that nothing of the value is lost.
+            if character.is_kar() && value.len() > character.len_utf8() {
+                let (kar, rest) = value.split_at(character.len_utf8());
+                self.process_key_value(kar, config);
+                self.process_key_value(rest, config);
+                return;
+            }
+
             // Kar insertion
             if character.is_kar() {
                 // Old style Kar ordering
